@@ -241,6 +241,9 @@ class Histogram1D(ObjectWithBinning, HistogramBase):
                     raise IndexError(
                         "Cannot index with masked array of a wrong dimension"
                     )
+            else:
+                # Keep the bins in rising order (numpy semantics for negative / invalid indices)
+                index = np.sort(np.arange(self.bin_count)[index])
         elif isinstance(index, slice):
             keep_missed = self.keep_missed
             # TODO: Fix this
